@@ -5,6 +5,7 @@ inside int64).  ViewPort statements quantify over every ViewPort state (origin, 
 locked or growing, nil or non-nil parent) and every argument; BoxLayout statements over every child list.
 -/
 import Tcell.Lemmas.Views
+import Tcell.Lemmas.ViewsProp
 namespace Tcell.Props.C20
 open Tcell.Views Tcell.Views.ViewPort
 
@@ -520,22 +521,68 @@ theorem pads_nonneg (avail used : Int) (fills : List Rat) (hf : ∀ f ∈ fills,
       grind
     rw [pads_no_fill avail used fills h0 p hp]; exact Int.le_refl 0
 
-/-- **Proportionality, lower half (partial).**  What is proved of "in proportion to the fill factors": every
-child receives at least the integer part of its exact share and the total is exact (`pads_total`), hence at most
-`#children − 1` cells in total are handed out by the largest-remainder pass.  NOT proved here: the upper
-bound `pad_i ≤ ⌊share_i⌋ + 1` (no child is picked twice by the pass; it needs the maximality of `best` together
-with `Σ frac_i = resid < #{frac_i > 0}`).  The `box` oracle checks `|pad_i − share_i| < 1` on the real code for
-every generated layout, and the model is compared with the code bit for bit. -/
-theorem pads_proportional_partial (avail used : Int) (fills : List Rat) (hf : ∀ f ∈ fills, 0 ≤ f)
+/-- **pads_proportional** (full strength; formerly `pads_proportional_partial`, which had only the lower half).
+"In proportion to the fill factors", cell for cell: with non-negative fill factors of which at least one is positive,
+every child's padding is the integer part of its exact share `surplus · fill_i / Σ fill` or that plus one —
+`⌊share_i⌋ ≤ pad_i ≤ ⌊share_i⌋ + 1` — and it differs from the exact share by strictly less than one cell,
+`|pad_i − share_i| < 1`.  Together with `pads_total` (the paddings add up to the surplus exactly) this is the
+largest-remainder apportionment.  The upper half is the comment of boxlayout.go:76-78 ("no single cell gets more than
+one more cell") made a theorem: the pass never picks a cell twice, because `Σ frac` exceeds the number of cells still
+to hand out minus one, so the maximal `frac` is positive, and a picked cell's `frac` is 0 afterwards
+(`Tcell.Views.pass_on_shares`, Lemmas/ViewsProp.lean). -/
+theorem pads_proportional (avail used : Int) (fills : List Rat) (hf : ∀ f ∈ fills, 0 ≤ f)
     (hpos : ∃ f ∈ fills, 0 < f) (i : Nat) (p : Int) (hi : (pads avail used fills)[i]? = some p) :
     ∃ f, fills[i]? = some f ∧
       ((share (surplus avail used) (totFill fills) f).floor : Int) ≤ p ∧
-      share (surplus avail used) (totFill fills) f - 1 < (p : Rat) := by
-  obtain ⟨f, hfi, hfl, _⟩ := (pads_total avail used fills hf hpos).2.2 i p hi
-  refine ⟨f, hfi, hfl, ?_⟩
-  have h1 := Rat.lt_floor (x := share (surplus avail used) (totFill fills) f)
-  have h2 : ((share (surplus avail used) (totFill fills) f).floor : Rat) ≤ (p : Rat) := Rat.intCast_le_intCast.2 hfl
-  grind
+      p ≤ (share (surplus avail used) (totFill fills) f).floor + 1 ∧
+      share (surplus avail used) (totFill fills) f - 1 < (p : Rat) ∧
+      (p : Rat) < share (surplus avail used) (totFill fills) f + 1 := by
+  have hex : 0 ≤ surplus avail used := by unfold surplus; split <;> omega
+  generalize hE : surplus avail used = extra at *
+  have hsum := totFill_eq_sum fills
+  have ht : 0 < totFill fills := by rw [hsum]; exact sum_pos_rat fills hf hpos
+  have hne : totFill fills ≠ 0 := by grind
+  have heq : LayoutNum.eq (totFill fills) (LayoutNum.zero : Rat) = false := by
+    show decide (totFill fills = 0) = false
+    simpa using hne
+  have hpads : pads avail used fills =
+      (distribute (extra - psum (fills.map (shareCell extra (totFill fills)))).toNat
+        (fills.map (shareCell extra (totFill fills)))).map (·.pad) := by
+    simp only [pads, psum, ← hE, surplus, heq, Bool.false_eq_true, if_false]
+  obtain ⟨_, hinv⟩ := pass_on_shares extra fills hex hf ht
+  rw [hpads, List.getElem?_map] at hi
+  cases hc' : (distribute (extra - psum (fills.map (shareCell extra (totFill fills)))).toNat
+      (fills.map (shareCell extra (totFill fills))))[i]? with
+  | none => simp [hc'] at hi
+  | some c' =>
+    simp only [hc', Option.map_some, Option.some.injEq] at hi
+    obtain ⟨c0, hc0, _, hcase⟩ := hinv i c' hc'
+    rw [List.getElem?_map] at hc0
+    cases hfi : fills[i]? with
+    | none => simp [hfi] at hc0
+    | some f =>
+      simp only [hfi, Option.map_some, Option.some.injEq] at hc0
+      have hm := List.mem_of_getElem? hfi
+      have hpad := (shareCell_spec extra (totFill fills) f hex ht (hf f hm)).1
+      have hfr := shareCell_frac extra (totFill fills) f hex ht (hf f hm)
+      have h1 := Rat.floor_le (share extra (totFill fills) f)
+      have h2 := Rat.lt_floor_add_one (share extra (totFill fills) f)
+      rw [← hc0] at hcase
+      refine ⟨f, rfl, ?_⟩
+      rcases hcase with ⟨hp, _⟩ | ⟨hp, _, hpos0⟩
+      · have hpe : p = (share extra (totFill fills) f).floor := by rw [← hi, hp, hpad]
+        have hpr : (p : Rat) = (((share extra (totFill fills) f).floor : Int) : Rat) := by rw [hpe]
+        refine ⟨by omega, by omega, ?_, ?_⟩ <;> grind
+      · have hpe : p = (share extra (totFill fills) f).floor + 1 := by rw [← hi, hp, hpad]
+        have hpr : (p : Rat) = (((share extra (totFill fills) f).floor : Int) : Rat) + 1 := by
+          rw [hpe, Rat.intCast_add]; rfl
+        rw [hfr] at hpos0
+        refine ⟨by omega, by omega, ?_, ?_⟩ <;> grind
+
+/-- the hypotheses are satisfiable and both cases occur: surplus 6 over fills 1,1,2 has exact shares 3/2, 3/2, 3 and
+paddings 2, 1, 3 — the first cell is rounded up, the second down, the third is exact -/
+example : pads 10 4 [(1 : Rat), 1, 2] = [2, 1, 3] ∧ share (surplus 10 4) (totFill [(1 : Rat), 1, 2]) 1 = 3 / 2 ∧
+    share (surplus 10 4) (totFill [(1 : Rat), 1, 2]) 2 = 3 := by decide +kernel
 
 example : pads 10 4 [(1 : Rat), 1, 2] = [2, 1, 3] := by decide +kernel
 example : pads 10 4 [(0 : Rat), 0] = [0, 0] := by decide +kernel
